@@ -423,6 +423,14 @@ def distribution_cases(draw):
 
 @st.composite
 def equi_cases(draw):
+    if draw(st.integers(0, 2)) == 0:
+        # classes that coincide below the length of their shortest basis element and differ above:
+        # statistics are equidistributed up to an explicit small n but not beyond it
+        L = draw(st.sampled_from([3, 4]))
+        b1 = [list(p) for p in draw(st.lists(gen.perm_of(L), min_size=1, max_size=2))]
+        b2 = [list(p) for p in draw(st.lists(gen.perm_of(L), min_size=1, max_size=2))]
+        joint = draw(st.booleans())
+        return {"b1": b1, "b2": b2, "n": draw(st.sampled_from([L - 1, L - 1, L])), "joint": joint}
     b1 = [list(p) for p in draw(st.lists(gen.perms(2, 4), min_size=1, max_size=2))]
     mode = draw(st.sampled_from(["sym", "random", "same"]))
     if mode == "sym":
@@ -450,7 +458,7 @@ def run(acc, tier):
     if tier == "quick":
         engine.pmap(acc, shard_perms, extra=(7, 6))
         engine.pmap(acc, shard_primes, extra=(10000,))
-        engine.pmap(acc, shard_generated, extra=(30, 12, 25, 6, 60))
+        engine.pmap(acc, shard_generated, extra=(30, 12, 25, 9, 60))
     else:
         engine.pmap(acc, shard_perms, extra=(8, 7))
         engine.pmap(acc, shard_primes, extra=(100000,))
